@@ -69,6 +69,9 @@ type target struct {
 	name  string
 	apply func(u refmodel.Update) bool // returns false if the stack reported failure
 	read  func() any
+	// applyValue (local API only) hands the given payload object to the stack - the caller may hand in the same
+	// object more than once, as an application that keeps its update value does
+	applyValue func(payload any, u refmodel.Update) bool
 }
 
 func setup(f *gen.Func, path string) (*world.World, target) {
@@ -121,6 +124,10 @@ func setup(f *gen.Func, path string) (*world.World, target) {
 				return lf.UpdateData(f.Fn, payload, fp, fd) == nil
 			},
 			read: func() any { return lf.DataCopy(f.Fn) },
+			applyValue: func(payload any, u refmodel.Update) bool {
+				fp, fd := listgen.Filters(f, u)
+				return lf.UpdateData(f.Fn, payload, fp, fd) == nil
+			},
 		}
 	}
 }
@@ -180,7 +187,27 @@ func TestFold(t *testing.T) {
 		var shapeSeq []string
 		nontrivial := false
 		var sample []any
+		// update values the application keeps and hands in again later (the very same object)
+		type keptUpdate struct {
+			payload any
+			u       refmodel.Update // pristine copy of what the value said when it was made
+		}
+		var kept []keptUpdate
 		for i := 0; i < n; i++ {
+			if tg.applyValue != nil && len(kept) > 0 && rapid.IntRange(0, 3).Draw(t, fmt.Sprintf("sameValueAgain%d", i)) == 0 {
+				// the same update value later in the history: it says what it said the first time (the stack must
+				// not have written anything into it), so the result is the fold of that update over the present list
+				k := kept[rapid.IntRange(0, len(kept)-1).Draw(t, fmt.Sprintf("keptValue%d", i))]
+				next := refmodel.Fold(&f, state, k.u)
+				if !tg.applyValue(k.payload, k.u) {
+					world.Fail(t, fmt.Sprintf("C02/update-rejected/%s/%s", sigShape(k.u.Shape()), f.Fn), "%s step %d: a well-formed %s update (a value handed in before) was reported as failed", tg.name, i, k.u.Shape())
+				}
+				compare(t, &f, tg.read(), next, k.u, i, tg.name+"/same-value-again")
+				world.Label("update/same-value-handed-in-again")
+				shapeSeq = append(shapeSeq, k.u.Shape()+"/again")
+				state = next
+				continue
+			}
 			shape := rapid.SampledFrom(shapes).Draw(t, fmt.Sprintf("shape%d", i))
 			if i == 0 && rapid.IntRange(0, 2).Draw(t, "seedfull") != 0 {
 				shape = listgen.Full // most histories start from a populated list
@@ -218,7 +245,16 @@ func TestFold(t *testing.T) {
 			}
 			before := refmodel.Multiset(state)
 			next := refmodel.Fold(&f, state, u)
-			ok := tg.apply(u)
+			var ok bool
+			if tg.applyValue != nil && u.Partial && !u.Delete && !u.PartialSelector.IsValid() && rapid.Bool().Draw(t, fmt.Sprintf("keepValue%d", i)) {
+				pristine := u
+				pristine.Items = refmodel.DeepCloneItems(u.Items)
+				payload := refmodel.Payload(&f, u.Items)
+				kept = append(kept, keptUpdate{payload, pristine})
+				ok = tg.applyValue(payload, u)
+			} else {
+				ok = tg.apply(u)
+			}
 			if !ok {
 				world.Fail(t, fmt.Sprintf("C02/update-rejected/%s/%s", sigShape(u.Shape()), f.Fn), "%s step %d: a well-formed %s update was reported as failed: %s", tg.name, i, u.Shape(), world.JSON(listgen.Describe(&f, u)))
 			}
@@ -283,7 +319,6 @@ func TestSweep(t *testing.T) {
 	}
 	world.SetExtra("sweep_grid_complete", true)
 }
-
 
 // TestModelUpdateList: the value RETURNED by the per-type UpdateList methods (the merged data set,
 // also used with persist=false to build full write data sets) equals the reference fold, and with
